@@ -289,10 +289,16 @@ def view_check(name, case, rec):
     um = make_umat(fem, case["mat"])
     ux, ps, bx = np.array(case["ux"]), np.array(case["ps"]), np.array(case["bx"])
     rec.nontrivial = bool(np.abs(ux - 1).max() >= 0.05)
-    if name == "view":
-        data = fem.ViewMaterial(um, ux=ux, ps=ps, bx=bx).evaluate()
-    else:
-        data = fem.ViewMaterialIncompressible(um, ux=ux, ps=ps, bx=bx).evaluate()
+    import warnings
+
+    with warnings.catch_warnings(record=True) as caught:
+        warnings.simplefilter("always")
+        if name == "view":
+            data = fem.ViewMaterial(um, ux=ux, ps=ps, bx=bx).evaluate()
+        else:
+            data = fem.ViewMaterialIncompressible(um, ux=ux, ps=ps, bx=bx).evaluate()
+    # points at which the lateral equilibrium was found at det(F) <= 0 are returned as NaN together with a warning
+    declined = {str(w.message).split(" ")[0] for w in caught if "volume ratio det(F) <= 0" in str(w.message)}
     sc = abs(P_diag(um, [1.05, 1, 1])[0, 0]) * 20
     rec.require("three-load-cases", len(data) == 3, len(data))
     for (lam, P, label), st_ in zip(data, (ux, ps, bx)):
@@ -317,8 +323,18 @@ def view_check(name, case, rec):
                     s = [l, l, l**-2.0]
                 Pd = P_diag(um, s)
                 ref.append(Pd[0, 0] - s[2] / s[0] * Pd[2, 2])
-        rec.close("curve:" + label.split(" ")[0], float(np.abs(P - np.array(ref)).max()) / sc if P.shape == np.array(ref).shape else float("inf"), 1e-7,
-                  {"material": case["mat"]["name"]})
+        ref = np.array(ref)
+        if P.shape != ref.shape:
+            dev = float("inf")
+        else:
+            keep = np.isfinite(P)
+            if not keep.all() and label.split(" ")[0] not in declined:
+                dev = float("inf")  # NaN without the warning
+            else:
+                if not keep.all():
+                    rec.label("declined-points-with-warning")
+                dev = float(np.abs(P - ref)[keep].max()) / sc if keep.any() else 0.0
+        rec.close("curve:" + label.split(" ")[0], dev, 1e-7, {"material": case["mat"]["name"]})
 
 
 FAMILIES = [
